@@ -137,78 +137,66 @@ def nodeNoNestedUnion (S : Schema) : Node → Bool
 
 def schemaNoNestedUnion (S : Schema) : Bool := S.all (nodeNoNestedUnion S)
 
-/-- `ac = true`: `char` presentations are allowed, and then no enum symbol is a single character
-    (`Spec.denotes` does not read a `char` as an enum symbol, the serializer does). -/
-def nodeCharOK (ac : Bool) : Node → Bool
-  | .enum _ syms => !ac || syms.all fun s => s.length != 1
-  | _ => true
-
-def schemaCharOK (ac : Bool) (S : Schema) : Bool := S.all (nodeCharOK ac)
-
-structure NodeOK (ac : Bool) (S : Schema) (n : Node) : Prop where
+structure NodeOK (S : Schema) (n : Node) : Prop where
   children : ∀ k ∈ n.children, k < S.size
   distinct : nodeNamesDistinct n = true
   small : nodeSmall n = true
   nonest : nodeNoNestedUnion S n = true
-  charok : nodeCharOK ac n = true
 
-def SchemaOK (ac : Bool) (S : Schema) : Prop := ∀ (k : Nat) (n : Node), S[k]? = some n → NodeOK ac S n
+def SchemaOK (S : Schema) : Prop := ∀ (k : Nat) (n : Node), S[k]? = some n → NodeOK S n
 
 theorem Array.all_getElem? {α : Type} {p : α → Bool} {a : Array α} (h : a.all p = true) {k : Nat}
     {x : α} (hx : a[k]? = some x) : p x = true := by
   rw [Array.all_eq_true'] at h
   exact h x (Array.mem_of_getElem? hx)
 
-theorem SchemaOK.of_checks {ac : Bool} {S : Schema} (h1 : S.keysInBounds = true)
+theorem SchemaOK.of_checks {S : Schema} (h1 : S.keysInBounds = true)
     (h2 : schemaNamesDistinct S = true) (h3 : schemaSmall S = true)
-    (h4 : schemaNoNestedUnion S = true) (h5 : schemaCharOK ac S = true) : SchemaOK ac S := by
+    (h4 : schemaNoNestedUnion S = true) : SchemaOK S := by
   intro k n hk
-  refine ⟨?_, Array.all_getElem? h2 hk, Array.all_getElem? h3 hk, Array.all_getElem? h4 hk,
-    Array.all_getElem? h5 hk⟩
+  refine ⟨?_, Array.all_getElem? h2 hk, Array.all_getElem? h3 hk, Array.all_getElem? h4 hk⟩
   have := Array.all_getElem? h1 hk
   simpa using this
 
 /-- Top-level node: checked like the nodes of `S`. -/
-def nodeOKb (ac : Bool) (S : Schema) (n : Node) : Bool :=
+def nodeOKb (S : Schema) (n : Node) : Bool :=
   n.children.all (· < S.size) && nodeNamesDistinct n && nodeSmall n && nodeNoNestedUnion S n
-    && nodeCharOK ac n
 
-theorem NodeOK.of_check {ac : Bool} {S : Schema} {n : Node} (h : nodeOKb ac S n = true) :
-    NodeOK ac S n := by
+theorem NodeOK.of_check {S : Schema} {n : Node} (h : nodeOKb S n = true) :
+    NodeOK S n := by
   simp only [nodeOKb, Bool.and_eq_true] at h
-  obtain ⟨⟨⟨⟨h1, h2⟩, h3⟩, h4⟩, h5⟩ := h
-  exact ⟨by simpa using h1, h2, h3, h4, h5⟩
+  obtain ⟨⟨⟨h1, h2⟩, h3⟩, h4⟩ := h
+  exact ⟨by simpa using h1, h2, h3, h4⟩
 
 mutual
 /-- A presentation a Rust program can produce: integers lie in the range of their type, every
-    length is below `2 ^ 63` (`isize::MAX`); with `ac = false`, no `char` occurs. -/
-def svOK (ac : Bool) : SV → Bool
-  | .bool _ | .f32 _ | .f64 _ | .none | .unit => true
+    length is below `2 ^ 63` (`isize::MAX`). -/
+def svOK : SV → Bool
+  | .bool _ | .f32 _ | .f64 _ | .none | .unit | .char _ => true
   | .int t v => t.inRange v
-  | .char _ => ac
   | .str s => decide ((utf8 s).length < 2 ^ 63)
   | .bytes b => decide (b.length < 2 ^ 63)
-  | .some v => svOK ac v
+  | .some v => svOK v
   | .unitStruct name => decide ((utf8 name).length < 2 ^ 63)
   | .unitVariant _ _ variant => decide ((utf8 variant).length < 2 ^ 63)
-  | .newtypeStruct _ v => svOK ac v
-  | .newtypeVariant _ _ _ v => svOK ac v
-  | .seq _ elems => decide (elems.length < 2 ^ 63) && svOKList ac elems
-  | .tuple elems => decide (elems.length < 2 ^ 63) && svOKList ac elems
-  | .tupleStruct _ elems => decide (elems.length < 2 ^ 63) && svOKList ac elems
-  | .tupleVariant _ _ _ elems => decide (elems.length < 2 ^ 63) && svOKList ac elems
-  | .map _ entries => decide (entries.length < 2 ^ 63) && svOKEntries ac entries
-  | .struct _ fields => decide (fields.length < 2 ^ 63) && svOKFields ac fields
-  | .structVariant _ _ _ fields => decide (fields.length < 2 ^ 63) && svOKFields ac fields
-def svOKList (ac : Bool) : List SV → Bool
+  | .newtypeStruct _ v => svOK v
+  | .newtypeVariant _ _ _ v => svOK v
+  | .seq _ elems => decide (elems.length < 2 ^ 63) && svOKList elems
+  | .tuple elems => decide (elems.length < 2 ^ 63) && svOKList elems
+  | .tupleStruct _ elems => decide (elems.length < 2 ^ 63) && svOKList elems
+  | .tupleVariant _ _ _ elems => decide (elems.length < 2 ^ 63) && svOKList elems
+  | .map _ entries => decide (entries.length < 2 ^ 63) && svOKEntries entries
+  | .struct _ fields => decide (fields.length < 2 ^ 63) && svOKFields fields
+  | .structVariant _ _ _ fields => decide (fields.length < 2 ^ 63) && svOKFields fields
+def svOKList : List SV → Bool
   | [] => true
-  | e :: es => svOK ac e && svOKList ac es
-def svOKFields (ac : Bool) : List (String × SV) → Bool
+  | e :: es => svOK e && svOKList es
+def svOKFields : List (String × SV) → Bool
   | [] => true
-  | (name, v) :: rest => decide ((utf8 name).length < 2 ^ 63) && svOK ac v && svOKFields ac rest
-def svOKEntries (ac : Bool) : List (SV × SV) → Bool
+  | (name, v) :: rest => decide ((utf8 name).length < 2 ^ 63) && svOK v && svOKFields rest
+def svOKEntries : List (SV × SV) → Bool
   | [] => true
-  | (k, v) :: rest => svOK ac k && svOK ac v && svOKEntries ac rest
+  | (k, v) :: rest => svOK k && svOK v && svOKEntries rest
 end
 
 /-! ### Leaf calls -/
@@ -244,7 +232,7 @@ def LeafRes (ext : DenExt) (S : Schema) (n : Node) (sv : SV) (m : SerM Unit) (s 
     ∃ v bytes, m s = (.ok (), { s with out := s.out ++ bytes }) ∧ Dec S n bytes v ∧
       denotesLeaf ext n sv v = true
 
-theorem SchemaOK.child {ac : Bool} {S : Schema} {n : Node} (hn : NodeOK ac S n) {k : Nat}
+theorem SchemaOK.child {S : Schema} {n : Node} (hn : NodeOK S n) {k : Nat}
     (hk : k ∈ n.children) : ∃ c, S[k]? = some c := by
   have := hn.children k hk
   exact ⟨S[k], by simp [this]⟩
@@ -260,10 +248,10 @@ theorem union_branch_of_lookup {S : Schema} {vs : List Nat} {key : LookupKey} {d
   · cases n <;> first | rfl | simp [Node.priorityFor, Node.registrations] at hp
   · simp [hp]
 
-theorem viaUnion_leaf {ac : Bool} {ext : DenExt} {S : Schema} (hS : SchemaOK ac S) {node : Node}
-    (hn : NodeOK ac S node) (key : LookupKey) (f : Node → SerM Unit) (sv : SV) (s : SerState)
+theorem viaUnion_leaf {ext : DenExt} {S : Schema} (hS : SchemaOK S) {node : Node}
+    (hn : NodeOK S node) (key : LookupKey) (f : Node → SerM Unit) (sv : SV) (s : SerState)
     (h : s.budget = none)
-    (hf : ∀ n s, s.budget = none → n.isUnion = false → NodeOK ac S n → LeafRes ext S n sv (f n) s)
+    (hf : ∀ n s, s.budget = none → n.isUnion = false → NodeOK S n → LeafRes ext S n sv (f n) s)
     (hok : (viaUnion S node key f s).1 = .ok ()) :
     ∃ v bytes, viaUnion S node key f s = (.ok (), { s with out := s.out ++ bytes }) ∧
       Dec S node bytes v ∧ denotesAtLeaf ext S node sv v = true := by
@@ -339,8 +327,8 @@ theorem priorityFor_null {n : Node} {p : Nat} (h : n.priorityFor .null = some p)
   all_goals (try (cases ‹DecimalRepr› <;> simp at h))
 
 section
-variable {ac : Bool} {ext : Ext} {S : Schema} (hS : SchemaOK ac S) {node : Node}
-  (hn : NodeOK ac S node) (s : SerState) (h : s.budget = none)
+variable {ext : Ext} {S : Schema} (hS : SchemaOK S) {node : Node}
+  (hn : NodeOK S node) (s : SerState) (h : s.budget = none)
 include hn h
 
 theorem serUnit_sound (sv : SV) (hsv : sv = .none ∨ sv = .unit)
@@ -393,8 +381,8 @@ theorem leBytes_take_drop12 (b : Bytes) (hl : b.length = 12) :
   rw [this, List.append_assoc, List.take_append_drop, List.take_append_drop]
 
 section
-variable {ac : Bool} {ext : Ext} {S : Schema} (hS : SchemaOK ac S) {node : Node}
-  (hn : NodeOK ac S node) (s : SerState) (h : s.budget = none)
+variable {ext : Ext} {S : Schema} (hS : SchemaOK S) {node : Node}
+  (hn : NodeOK S node) (s : SerState) (h : s.budget = none)
 include hS hn h
 
 theorem serBytes_sound (b : Bytes) (hb : b.length < 2 ^ 63)
@@ -434,8 +422,8 @@ theorem serBytes_sound (b : Bytes) (hb : b.length < 2 ^ 63)
 end
 
 section
-variable {ac : Bool} {ext : Ext} {S : Schema} (hS : SchemaOK ac S) {node : Node}
-  (hn : NodeOK ac S node) (s : SerState) (h : s.budget = none)
+variable {ext : Ext} {S : Schema} (hS : SchemaOK S) {node : Node}
+  (hn : NodeOK S node) (s : SerState) (h : s.budget = none)
 include hS hn h
 
 theorem serBool_sound (b : Bool) (hok : (serBool S node b s).1 = .ok ()) :
@@ -461,8 +449,8 @@ theorem serF32_sound (bits : BitVec 32) (hok : (serF32 S node bits s).1 = .ok ()
 end
 
 section
-variable {ac : Bool} {ext : Ext} {S : Schema} (hS : SchemaOK ac S) {node : Node}
-  (hn : NodeOK ac S node) (s : SerState) (h : s.budget = none)
+variable {ext : Ext} {S : Schema} (hS : SchemaOK S) {node : Node}
+  (hn : NodeOK S node) (s : SerState) (h : s.budget = none)
 include hS hn h
 
 theorem serInteger_sound (t : IntTy) (x : Int) (ht : t.inRange x = true)
@@ -518,22 +506,22 @@ theorem denotesLeaf_bytes_text {ext : DenExt} {sv : SV} {str : String} (ht : tex
   cases sv <;> simp [textOf] at ht <;> simp [denotesLeaf, textOf, ht]
 
 theorem denotesLeaf_enum_text {ext : DenExt} {sv : SV} {str : String} {nm : Name}
-    {syms : List String} {idx : Nat} (ht : textOf sv = some str) (hc : ∀ c, sv ≠ .char c)
+    {syms : List String} {idx : Nat} (ht : textOf sv = some str)
     (hs : syms[idx]? = some str) :
     denotesLeaf ext (.enum nm syms) sv (.enum idx) = true := by
   cases sv <;> simp [textOf] at ht <;> simp_all [denotesLeaf, textOf]
 
 section
-variable {ac : Bool} {ext : Ext} {S : Schema} (s : SerState) (h : s.budget = none)
+variable {ext : Ext} {S : Schema} (s : SerState) (h : s.budget = none)
 include h
 
 /-- `serStrAt` on string / bytes / enum nodes for any presentation that offers a text -/
-theorem serStrAt_text {n : Node} (hnok : NodeOK ac S n) (sv : SV) (str : String)
+theorem serStrAt_text {n : Node} (hnok : NodeOK S n) (sv : SV) (str : String)
     (ht : textOf sv = some str) (hlen : (utf8 str).length < 2 ^ 63)
-    (h3 : n = .string ∨ n = .bytes ∨ ∃ nm syms, n = .enum nm syms ∧ ∀ c, sv ≠ .char c) :
+    (h3 : n = .string ∨ n = .bytes ∨ ∃ nm syms, n = .enum nm syms) :
     LeafRes (denExtOf ext) S n sv (serStrAt ext n str) s := by
   intro hok
-  rcases h3 with rfl | rfl | ⟨nm, syms, rfl, hc⟩
+  rcases h3 with rfl | rfl | ⟨nm, syms, rfl⟩
   · exact ⟨.string str, _, writeLengthDelimited_none _ hlen s h,
       Dec.of_encode (by simp [encode, hlen]), denotesLeaf_string_text ht⟩
   · exact ⟨.bytes (utf8 str), _, writeLengthDelimited_none _ hlen s h,
@@ -547,39 +535,27 @@ theorem serStrAt_text {n : Node} (hnok : NodeOK ac S n) (sv : SV) (str : String)
       have hi : InI64 (d : Int) := inI64_of_lt (by omega)
       have h1 : d < syms.length ∧ d < 2 ^ 63 := by omega
       exact ⟨.enum d, _, writeVarI64_spec _ hi s h, Dec.of_encode (by simp [encode, h1]),
-        denotesLeaf_enum_text ht hc (lookupLast_some hl)⟩
+        denotesLeaf_enum_text ht (lookupLast_some hl)⟩
 
 /-- `serialize_str` / `serialize_char` at a non-union node -/
-theorem serStrAt_leaf (hext : ExtOK ext) {n : Node} (hnok : NodeOK ac S n)
+theorem serStrAt_leaf (hext : ExtOK ext) {n : Node} (hnok : NodeOK S n)
     (sv : SV) (str : String)
-    (hsv : sv = .str str ∨ ∃ c, sv = .char c ∧ str = String.singleton c ∧ ac = true)
+    (hsv : sv = .str str ∨ ∃ c, sv = .char c ∧ str = String.singleton c)
     (hlen : (utf8 str).length < 2 ^ 63) :
     LeafRes (denExtOf ext) S n sv (serStrAt ext n str) s := by
   have ht : textOf sv = some str := by
-    rcases hsv with rfl | ⟨c, rfl, rfl, _⟩ <;> rfl
+    rcases hsv with rfl | ⟨c, rfl, rfl⟩ <;> rfl
   intro hok
   cases n
   case string => exact serStrAt_text s h hnok sv str ht hlen (Or.inl rfl) hok
   case bytes => exact serStrAt_text s h hnok sv str ht hlen (Or.inr (Or.inl rfl)) hok
   case enum nm syms =>
-    rcases hsv with rfl | ⟨c, rfl, rfl, hac⟩
-    · exact serStrAt_text s h hnok _ str ht hlen (Or.inr (Or.inr ⟨nm, syms, rfl, by simp⟩)) hok
-    · -- a `char` on an enum node: excluded by `nodeCharOK`
-      exfalso
-      simp only [serStrAt] at hok
-      cases hl : lookupLast syms (String.singleton c) with
-      | none => simp [hl, SerM.fail] at hok
-      | some d =>
-        have hmem : String.singleton c ∈ syms := List.mem_of_getElem? (lookupLast_some hl)
-        have hco := hnok.charok
-        simp only [nodeCharOK, hac, Bool.not_true, Bool.false_or, List.all_eq_true] at hco
-        have := hco _ hmem
-        simp at this
+    exact serStrAt_text s h hnok sv str ht hlen (Or.inr (Or.inr ⟨nm, syms, rfl⟩)) hok
   case uuid =>
     simp only [serStrAt] at hok ⊢
     refine ⟨.string str, _, writeLengthDelimited_none _ hlen s h,
       Dec.of_encode (by simp [encode, hlen]), ?_⟩
-    rcases hsv with rfl | ⟨c, rfl, rfl, _⟩ <;> simp [denotesLeaf]
+    rcases hsv with rfl | ⟨c, rfl, rfl⟩ <;> simp [denotesLeaf]
   case fixed nm size =>
     simp only [serStrAt] at hok ⊢
     by_cases hsz : size ≠ (strBytes str).length
@@ -588,7 +564,7 @@ theorem serStrAt_leaf (hext : ExtOK ext) {n : Node} (hnok : NodeOK ac S n)
       have hl : (utf8 str).length = size := by have : (strBytes str).length = size := by omega
                                                exact this
       refine ⟨.fixed (utf8 str), _, writeAll_none _ s h, Dec.fixed hl, ?_⟩
-      rcases hsv with rfl | ⟨c, rfl, rfl, _⟩ <;> simp [denotesLeaf, hl]
+      rcases hsv with rfl | ⟨c, rfl, rfl⟩ <;> simp [denotesLeaf, hl]
   case decimal scale prec repr =>
     simp only [serStrAt] at hok ⊢
     cases hp : ext.decParse str with
@@ -598,7 +574,7 @@ theorem serStrAt_leaf (hext : ExtOK ext) {n : Node} (hnok : NodeOK ac S n)
       obtain ⟨u, bytes, he, hd, hu⟩ := serDecimal_regular_sound hext S scale prec repr d s h hok
       refine ⟨.decimal u, bytes, he, hd, ?_⟩
       have hp' : (denExtOf ext).decParse str = some d := hp
-      rcases hsv with rfl | ⟨c, rfl, rfl, _⟩ <;>
+      rcases hsv with rfl | ⟨c, rfl, rfl⟩ <;>
         (simp only [denotesLeaf, hp']; exact decide_eq_true hu)
   case bigDecimal =>
     simp only [serStrAt] at hok ⊢
@@ -609,7 +585,7 @@ theorem serStrAt_leaf (hext : ExtOK ext) {n : Node} (hnok : NodeOK ac S n)
       obtain ⟨hr, hsc⟩ := hext.parse str d hp
       obtain ⟨bytes, he, hd⟩ := serDecimal_big_sound (ext := ext) S d s h hr hsc
       refine ⟨.bigDecimal d.1 d.2, bytes, he, hd, ?_⟩
-      rcases hsv with rfl | ⟨c, rfl, rfl, _⟩ <;> simp [denotesLeaf, denExtOf, hp]
+      rcases hsv with rfl | ⟨c, rfl, rfl⟩ <;> simp [denotesLeaf, denExtOf, hp]
   all_goals simp [serStrAt, SerM.fail] at hok
 
 end
@@ -637,12 +613,12 @@ theorem nullVariantBranch_some {S : Schema} {vs : List Nat} {variant : String} {
   · cases h
 
 section
-variable {ac : Bool} {ext : Ext} {S : Schema} (hS : SchemaOK ac S) {node : Node}
-  (hn : NodeOK ac S node) (s : SerState) (h : s.budget = none)
+variable {ext : Ext} {S : Schema} (hS : SchemaOK S) {node : Node}
+  (hn : NodeOK S node) (s : SerState) (h : s.budget = none)
 include hS hn h
 
 theorem serStr_sound (hext : ExtOK ext) (sv : SV) (str : String)
-    (hsv : sv = .str str ∨ ∃ c, sv = .char c ∧ str = String.singleton c ∧ ac = true)
+    (hsv : sv = .str str ∨ ∃ c, sv = .char c ∧ str = String.singleton c)
     (hlen : (utf8 str).length < 2 ^ 63)
     (hok : (serStr ext S node str s).1 = .ok ()) :
     ∃ v bytes, serStr ext S node str s = (.ok (), { s with out := s.out ++ bytes }) ∧
@@ -664,7 +640,7 @@ theorem serUnitStruct_sound (name : String) (hlen : (utf8 name).length < 2 ^ 63)
   case string => exact serStrAt_text s h hnok _ name rfl hlen (Or.inl rfl) hok
   case bytes => exact serStrAt_text s h hnok _ name rfl hlen (Or.inr (Or.inl rfl)) hok
   case enum nm syms =>
-    exact serStrAt_text s h hnok _ name rfl hlen (Or.inr (Or.inr ⟨nm, syms, rfl, by simp⟩)) hok
+    exact serStrAt_text s h hnok _ name rfl hlen (Or.inr (Or.inr ⟨nm, syms, rfl⟩)) hok
   all_goals simp [SerM.fail] at hok
 
 theorem serUnitVariant_sound (name : String) (idx : Nat) (variant : String)
@@ -689,7 +665,7 @@ theorem serUnitVariant_sound (name : String) (idx : Nat) (variant : String)
     case string => exact serStrAt_text s h hnok _ variant rfl hlen (Or.inl rfl) hok
     case bytes => exact serStrAt_text s h hnok _ variant rfl hlen (Or.inr (Or.inl rfl)) hok
     case enum nm syms =>
-      exact serStrAt_text s h hnok _ variant rfl hlen (Or.inr (Or.inr ⟨nm, syms, rfl, by simp⟩)) hok
+      exact serStrAt_text s h hnok _ variant rfl hlen (Or.inr (Or.inr ⟨nm, syms, rfl⟩)) hok
     all_goals simp [SerM.fail] at hok
   by_cases hu : node.isUnion = false
   · have e : serUnitVariant ext S node variant =
@@ -827,12 +803,12 @@ theorem viaName_bind {α β : Type} (S : Schema) (node : Node) (name : String) (
         | some k => simp only []; cases S[k]? <;> rfl
 
 section
-variable {ac : Bool} {S : Schema} (hS : SchemaOK ac S) {node : Node} (hn : NodeOK ac S node)
+variable {S : Schema} (hS : SchemaOK S) {node : Node} (hn : NodeOK S node)
 include hS hn
 
 theorem viaUnion_sound (key : LookupKey) (f : Node → SerM Unit) (Q : Node → Value → Prop)
     (s : SerState) (hs : Good s)
-    (hf : ∀ n s, Good s → n.isUnion = false → NodeOK ac S n → (f n s).1 = .ok () →
+    (hf : ∀ n s, Good s → n.isUnion = false → NodeOK S n → (f n s).1 = .ok () →
       Res S n (f n) s (Q n))
     (hok : (viaUnion S node key f s).1 = .ok ()) :
     Res S node (viaUnion S node key f) s (fun v =>
@@ -906,12 +882,12 @@ theorem viaName_union {α : Type} (S : Schema) (vs : List Nat) (name : String) (
       simp [viaName, hl, bind, writeVarI64_none _ s h, hk, hn]
 
 section
-variable {ac : Bool} {S : Schema} (hS : SchemaOK ac S) {node : Node} (hn : NodeOK ac S node)
+variable {S : Schema} (hS : SchemaOK S) {node : Node} (hn : NodeOK S node)
 include hS hn
 
 theorem viaName_sound (name : String) (f : Node → SerM Unit) (Q : Node → Value → Prop)
     (s : SerState) (hs : Good s)
-    (hf : ∀ n s, Good s → NodeOK ac S n → (f n s).1 = .ok () → Res S n (f n) s (Q n))
+    (hf : ∀ n s, Good s → NodeOK S n → (f n s).1 = .ok () → Res S n (f n) s (Q n))
     (hok : (viaName S node name f s).1 = .ok ()) :
     Res S node (viaName S node name f) s (fun v =>
       ((node.isUnion = false ∨ ∃ vs, node = .union vs ∧ namedLookup name (branchNodes S vs) = none)
@@ -950,8 +926,8 @@ theorem viaName_sound (name : String) (f : Node → SerM Unit) (Q : Node → Val
 end
 
 /-- soundness of `ser` on one presentation, at every node and state -/
-def SerSound (ac : Bool) (ext : Ext) (a : Bool) (S : Schema) (sv : SV) : Prop :=
-  ∀ node s, NodeOK ac S node → Good s → (ser ext a S node sv s).1 = .ok () →
+def SerSound (ext : Ext) (a : Bool) (S : Schema) (sv : SV) : Prop :=
+  ∀ node s, NodeOK S node → Good s → (ser ext a S node sv s).1 = .ok () →
     Res S node (ser ext a S node sv) s (fun v => denotes (denExtOf ext) S node sv v = true)
 
 /-- `c` more items of the current block, then further blocks up to the end marker -/
@@ -980,10 +956,10 @@ theorem DecTail.cons_new_block {S : Schema} {item : Node} {b B : Bytes} {v : Val
   simpa using this
 
 section
-variable {ac : Bool} {ext : Ext} {a : Bool} {S : Schema}
+variable {ext : Ext} {a : Bool} {S : Schema}
 
-theorem serElems_array_sound (item : Node) (hitem : NodeOK ac S item) (elems : List SV)
-    (hIH : ∀ e ∈ elems, SerSound ac ext a S e) :
+theorem serElems_array_sound (item : Node) (hitem : NodeOK S item) (elems : List SV)
+    (hIH : ∀ e ∈ elems, SerSound ext a S e) :
     ∀ c s k' s', Good s → serElems ext a S (.array item c) elems s = (.ok k', s') →
     ∃ c' vs bytes, k' = .array item c' ∧ s'.out = s.out ++ bytes ∧ Good s' ∧
       c ≤ c' + elems.length ∧
@@ -1209,11 +1185,11 @@ theorem pushBuffer_good {s : SerState} (hs : Good s) (b : Buffer) (hb : b.data =
 
 
 section
-variable {ac : Bool} {ext : Ext} {a : Bool} {S : Schema}
+variable {ext : Ext} {a : Bool} {S : Schema}
 
-theorem seqCore_array_sound (k : Nat) (hnok : NodeOK ac S (.array k)) (hS : SchemaOK ac S)
+theorem seqCore_array_sound (k : Nat) (hnok : NodeOK S (.array k)) (hS : SchemaOK S)
     (len : Option Nat) (elems : List SV) (hlen : elems.length < 2 ^ 63)
-    (hIH : ∀ e ∈ elems, SerSound ac ext a S e) (s : SerState) (hs : Good s)
+    (hIH : ∀ e ∈ elems, SerSound ext a S e) (s : SerState) (hs : Good s)
     (hok : (seqCore ext a S (.array k) len elems s).1 = .ok ()) :
     Res S (.array k) (seqCore ext a S (.array k) len elems) s (fun v =>
       seqAtNode S (fun item items => denotesList (denExtOf ext) S item elems items) (u8List elems)
@@ -1305,7 +1281,7 @@ theorem finally_ok_inv {m : SerM Unit} {fin : SerM Unit} {s : SerState}
       cases r2 <;> simp_all
 
 section
-variable {ac : Bool} {ext : Ext} {a : Bool} {S : Schema}
+variable {ext : Ext} {a : Bool} {S : Schema}
 
 theorem seqCore_bytes_sound (len : Option Nat) (elems : List SV) (hlen : elems.length < 2 ^ 63)
     (s : SerState) (hs : Good s)
@@ -1462,11 +1438,11 @@ theorem seqDispatch_union {S : Schema} {vs : List Nat} {name : Option String} {d
   cases n <;> first | exact h | simp [Node.isUnion] at hu
 
 section
-variable {ac : Bool} {ext : Ext} {a : Bool} {S : Schema}
+variable {ext : Ext} {a : Bool} {S : Schema}
 
-theorem seqCore_sound (hS : SchemaOK ac S) (n : Node) (hnok : NodeOK ac S n)
+theorem seqCore_sound (hS : SchemaOK S) (n : Node) (hnok : NodeOK S n)
     (len : Option Nat) (elems : List SV) (hlen : elems.length < 2 ^ 63)
-    (hIH : ∀ e ∈ elems, SerSound ac ext a S e) (s : SerState) (hs : Good s)
+    (hIH : ∀ e ∈ elems, SerSound ext a S e) (s : SerState) (hs : Good s)
     (hok : (seqCore ext a S n len elems s).1 = .ok ()) :
     Res S n (seqCore ext a S n len elems) s (fun v =>
       seqAtNode S (fun item items => denotesList (denExtOf ext) S item elems items) (u8List elems)
@@ -1491,9 +1467,9 @@ theorem seqBody_eq (node : Node) (len : Option Nat) (elems : List SV) :
   unfold seqBody seqStart seqCore
   exact viaUnion_bind S node .seqOrTuple _ _
 
-theorem seqBody_sound (hS : SchemaOK ac S) (node : Node) (hnok : NodeOK ac S node)
+theorem seqBody_sound (hS : SchemaOK S) (node : Node) (hnok : NodeOK S node)
     (len : Option Nat) (elems : List SV) (hlen : elems.length < 2 ^ 63)
-    (hIH : ∀ e ∈ elems, SerSound ac ext a S e) (s : SerState) (hs : Good s)
+    (hIH : ∀ e ∈ elems, SerSound ext a S e) (s : SerState) (hs : Good s)
     (hok : (seqBody ext a S node len elems s).1 = .ok ()) :
     Res S node (seqBody ext a S node len elems) s (fun v =>
       (node.isUnion = false ∧
@@ -1610,10 +1586,10 @@ theorem DecMapTail.cons_new_block {S : Schema} {item : Node} {bk b B : Bytes} {k
 
 
 section
-variable {ac : Bool} {ext : Ext} {a : Bool} {S : Schema}
+variable {ext : Ext} {a : Bool} {S : Schema}
 
-theorem serFields_map_sound (item : Node) (hitem : NodeOK ac S item) (fields : List (String × SV))
-    (hIH : ∀ p ∈ fields, (utf8 p.1).length < 2 ^ 63 ∧ SerSound ac ext a S p.2) :
+theorem serFields_map_sound (item : Node) (hitem : NodeOK S item) (fields : List (String × SV))
+    (hIH : ∀ p ∈ fields, (utf8 p.1).length < 2 ^ 63 ∧ SerSound ext a S p.2) :
     ∀ c s k' s', Good s → serFields ext a S (.map item c) fields s = (.ok k', s') →
     ∃ c' ents bytes, k' = .map item c' ∧ s'.out = s.out ++ bytes ∧ Good s' ∧
       c ≤ c' + fields.length ∧
@@ -1676,9 +1652,9 @@ theorem serFields_map_sound (item : Node) (hitem : NodeOK ac S item) (fields : L
           · have := DecMapTail.cons_in_block hstr hdec (htail tB tV ht)
             simpa using this
 
-theorem serEntries_map_sound (item : Node) (hitem : NodeOK ac S item) (entries : List (SV × SV))
-    (hstr : NodeOK ac S .string)
-    (hIH : ∀ p ∈ entries, SerSound ac ext a S p.1 ∧ SerSound ac ext a S p.2) :
+theorem serEntries_map_sound (item : Node) (hitem : NodeOK S item) (entries : List (SV × SV))
+    (hstr : NodeOK S .string)
+    (hIH : ∀ p ∈ entries, SerSound ext a S p.1 ∧ SerSound ext a S p.2) :
     ∀ c s k' s', Good s → serEntries ext a S (.map item c) entries s = (.ok k', s') →
     ∃ c' ents bytes, k' = .map item c' ∧ s'.out = s.out ++ bytes ∧ Good s' ∧
       c ≤ c' + entries.length ∧
@@ -1982,9 +1958,9 @@ theorem structDrop_nonrecord {k : StructKind} (h : ∀ f rs, k ≠ .record f rs)
   cases k <;> first | rfl | exact absurd rfl (h _ _)
 
 section
-variable {ac : Bool} {S : Schema}
+variable {S : Schema}
 
-theorem structCore_map_sound (k : Nat) (hnok : NodeOK ac S (.map k)) (L : Nat) (durLen : Option Nat)
+theorem structCore_map_sound (k : Nat) (hnok : NodeOK S (.map k)) (L : Nat) (durLen : Option Nat)
     (run : StructKind → SerState → Except (SerErr × StructKind) StructKind × SerState)
     (cnt : Nat) (hcnt : cnt < 2 ^ 63) (den : Node → List (String × Value) → Bool)
     (hrun : ∀ item, S[k]? = some item → ∀ c s k' s', Good s → run (.map item c) s = (.ok k', s') →
